@@ -39,4 +39,21 @@ def encBlockSizeCode (n : Nat) : Option Nat :=
     | some c => some c
     | none => if n ≤ blockSizeU8Bound then some blockSizeWriteU8 else some blockSizeWriteU16
 
+/-- how many bytes the coded frame number takes when written minimally (`FrameNumber::to_writer`: the UTF-8-like scheme, 7 payload bits
+    in one byte, then 5 + 6(k−1) bits in k bytes) -/
+def encNumberBytes (v : Nat) : Nat :=
+  if v < 2 ^ 7 then 1 else if v < 2 ^ 11 then 2 else if v < 2 ^ 16 then 3 else if v < 2 ^ 21 then 4
+  else if v < 2 ^ 26 then 5 else if v < 2 ^ 31 then 6 else 7
+
+/-- the header `FlacStreamWriter::write` builds for frame number `number` when it accepts the parameters (`none`: it refuses);
+    `a` = the channel assignment its decorrelation step settled on (independent channels, or one of the three stereo pairings) -/
+def streamWriterHeader (rate bps : Nat) (a : Assign) (n number hcrc : Nat) : Option Header :=
+  match streamWriterRate rate, streamWriterBps bps, encBlockSizeCode n with
+  | some rc, some bc, some sc =>
+    if assignOkB a then
+      some { blocking := false, bsCode := sc, blockSize := n, rateCode := rc, rate := rate, assign := a, bpsCode := bc, bps := bps,
+             reserved2 := false, number := number, numberBytes := encNumberBytes number, hcrc := hcrc }
+    else none
+  | _, _, _ => none
+
 end Flac
